@@ -11,10 +11,29 @@ use symrt::SymU;
 #[derive(Clone, Copy, Debug, PartialEq, Eq, PartialOrd, Ord)]
 pub struct Distance(pub SymU<256>);
 
+/// number of significant bits of a symbolic 256-bit value (0 for 0): binary search whose every
+/// comparison is decided by the solver, so each of the 257 outcomes is its own path
+pub fn sym_bit_len(x: SymU<256>) -> usize {
+    let (mut lo, mut hi) = (0usize, 256usize);
+    while lo < hi {
+        let mid = (lo + hi) / 2;
+        let bound = SymU::<256>::konst_u256(ruint::aliases::U256::from(1u8) << mid);
+        if x.slt(bound).get() {
+            hi = mid;
+        } else {
+            lo = mid + 1;
+        }
+    }
+    lo
+}
+
 impl Distance {
+    /// libp2p's Distance::ilog2: floor(log2(d)), None for distance 0
     pub fn ilog2(&self) -> Option<u32> {
-        // only used for logging in the transplanted sources
-        None
+        match sym_bit_len(self.0) {
+            0 => None,
+            n => Some(n as u32 - 1),
+        }
     }
 }
 
@@ -23,6 +42,19 @@ pub struct U256(pub SymU<256>);
 
 impl U256 {
     pub const ZERO_TAG: u8 = 0;
+    /// ruint's bit_len / leading_zeros / checked_log2 on the symbolic value
+    pub fn bit_len(&self) -> usize {
+        sym_bit_len(self.0)
+    }
+    pub fn leading_zeros(&self) -> usize {
+        256 - sym_bit_len(self.0)
+    }
+    pub fn checked_log2(&self) -> Option<usize> {
+        match sym_bit_len(self.0) {
+            0 => None,
+            n => Some(n - 1),
+        }
+    }
     pub fn to_be_bytes<const N: usize>(&self) -> [u8; N] {
         // model value only: the bytes end up in QuotingMetrics::network_density,
         // which no claimed assertion reads
